@@ -64,12 +64,7 @@ def model_run(sexprs, fuel=1500, timeout=600):
         _MODEL_READY.append(True)
     exe = common.model_bin(PROP)
 
-    def one(chunk):
-        if not chunk:
-            return []
-        rc, o, e = common.sh([exe, str(fuel)], input=("\n".join(chunk) + "\n").encode(), timeout=timeout)
-        if rc != 0:
-            raise RuntimeError("c08_model failed rc=%d: %s" % (rc, e[-800:]))
+    def parse_out(o):
         res = []
         for blk in o.split("===BEGIN\n")[1:]:
             src, rest = blk.split("===REF ", 1)
@@ -81,6 +76,29 @@ def model_run(sexprs, fuel=1500, timeout=600):
                 cls, out = txt.split("\n", 1)
                 d[key] = {"expect": cls.strip(), "out": out, "src": src}
             res.append(d)
+        return res
+
+    def one(chunk):
+        if not chunk:
+            return []
+        rc, o, e = common.sh([exe, str(fuel)], input=("\n".join(chunk) + "\n").encode(), timeout=min(timeout, 150))
+        if rc == 124 and len(chunk) > 1:
+            # one program of the chunk does not end in time (an activation tree too large to be a useful test): run them one
+            # by one and discard that one like a program that runs out of fuel
+            res = []
+            for sx in chunk:
+                rc1, o1, e1 = common.sh([exe, str(fuel)], input=(sx + "\n").encode(), timeout=10)
+                if rc1 == 0:
+                    res += parse_out(o1)
+                elif rc1 == 124:
+                    dead = {"expect": "nofuel", "out": "", "src": ""}
+                    res.append({"src": "", "ref": dict(dead), "mech": dict(dead), "mechb": dict(dead)})
+                else:
+                    raise RuntimeError("c08_model failed rc=%d: %s" % (rc1, e1[-800:]))
+            return res
+        if rc != 0:
+            raise RuntimeError("c08_model failed rc=%d: %s" % (rc, e[-800:]))
+        res = parse_out(o)
         if len(res) != len(chunk):
             raise RuntimeError("c08_model returned %d results for %d programs" % (len(res), len(chunk)))
         return res
@@ -272,7 +290,7 @@ def run(rep):
                 return False                  # a shrink step that no longer parses
             return any(k2 == kind for _, k2, _ in b)
         try:
-            small = (gen_c08k.shrink if fam == "kinds" else langrun.shrink)(sx, still_bad, budget=budget)
+            small = gen_c08k.shrink(sx, still_bad, budget=5 * budget) if fam == "kinds" else langrun.shrink(sx, still_bad, budget=budget)
         except Exception:
             small = sx
         m, i, b = check_one(impl, fam, small)
